@@ -265,6 +265,7 @@ func runGcLive(tr *hx.Trace, srv *fakeredis.Server, seed uint64, n, shard, shard
 		// while the collector runs (the other shard answers); afterwards the shard is back and reports the id as before
 		report := []string{"current", "previous", "gone", "raced", "shard-down"}[r.Intn(5)]
 		gc.Input.Redis.SetClusterShards(oneShard)
+		gc.Input.Redis.Addresses = []string{fs.ln.Addr().String()}
 		switch report {
 		case "shard-down":
 			fs.id1, fs.id2 = idOld, strings.Repeat("0", 40)
@@ -273,6 +274,7 @@ func runGcLive(tr *hx.Trace, srv *fakeredis.Server, seed uint64, n, shard, shard
 				down[0], down[1] = down[1], down[0]
 			}
 			gc.Input.Redis.SetClusterShards(down)
+			gc.Input.Redis.Addresses = []string{down[0].Master.Address, down[1].Master.Address}
 		case "raced":
 			fs.id1, fs.id2 = idOld, strings.Repeat("0", 40)
 		case "current":
@@ -300,6 +302,7 @@ func runGcLive(tr *hx.Trace, srv *fakeredis.Server, seed uint64, n, shard, shard
 			hx.Fatal("the collector never reached the target (state %d)", i)
 		}
 		gc.Input.Redis.SetClusterShards(oneShard)
+		gc.Input.Redis.Addresses = []string{fs.ln.Addr().String()}
 		for j := 0; j < 2000 && srv.ConnCount() > 0; j++ {
 			time.Sleep(100 * time.Microsecond)
 		}
@@ -311,16 +314,18 @@ func runGcLive(tr *hx.Trace, srv *fakeredis.Server, seed uint64, n, shard, shard
 		if report == "raced" {
 			ids = []string{idNew, idOld}
 		}
+		nextStartErr := ""
 		if report != "gone" {
 			cli2 := connect(srv)
+			// (an error here is what a start finds when the collector has removed the bookkeeping: the position read below decides)
 			if err := checkpoint.UpdateCheckpoint(cli2, cpA, ids); err != nil {
-				hx.Fatal("next start UpdateCheckpoint: %v", err)
+				nextStartErr = err.Error()
 			}
 			cli2.Close()
 		}
 		after := readResume(srv, ids)
 		id += shards
-		tr.Emit(map[string]interface{}{"ev": "Maint", "id": id, "op": "gclive", "k": 0, "total": 0, "crashed": false, "operr": false, "reported": report, "gcRequests": gcReqs,
+		tr.Emit(map[string]interface{}{"ev": "Maint", "id": id, "op": "gclive", "k": 0, "total": 0, "crashed": false, "operr": false, "reported": report, "gcRequests": gcReqs, "nextStartErr": nextStartErr,
 			"before": before, "after": after, "later": after, "wrote": -1, "state": fmt.Sprint(st.entries), "datadbs": fmt.Sprint(st.dataDbs)})
 		runs++
 		if len(samples) < 1 {
